@@ -30,7 +30,13 @@ import (
 // upstream.  Over N consecutive picks of the interleaved ring every target
 // must get its weight's share to within a few picks, and no target with a
 // sizeable weight may be starved.
-func TestC04ListenerShares(t *testing.T) {
+func TestC04ListenerShares(t *testing.T) { listenerShares(t, hx.Scale(32, 240)) }
+
+// ... and of C06's check: each target's share of the connections is its share of the lookups the
+// listeners perform - one per connection (run under the race detector there).
+func TestC06ListenerShares(t *testing.T) { listenerShares(t, hx.Scale(10, 80)) }
+
+func listenerShares(t *testing.T, cases int) {
 	const maxUp = 4
 	var counts [maxUp]int64
 	var ups []net.Listener
@@ -66,8 +72,8 @@ func TestC04ListenerShares(t *testing.T) {
 	cfg.Proxy.Strategy = "rr"
 	cert := selfSigned()
 	dp := metrics.DiscardProvider{}
-	hx.Check(t, hx.Scale(32, 240), func(t *rapid.T) {
-		kind := rapid.SampledFrom([]string{"https+tcp+sni", "tcp+sni", "https+tcp+sni", "tcp", "http"}).Draw(t, "listener")
+	hx.Check(t, cases, func(t *rapid.T) {
+		kind := rapid.SampledFrom([]string{"tcp", "https+tcp+sni", "tcp+sni", "https+tcp+sni", "http"}).Draw(t, "listener")
 		n := rapid.IntRange(2, maxUp).Draw(t, "targets")
 		addr := freeAddr()
 		_, port, _ := net.SplitHostPort(addr)
